@@ -1093,13 +1093,38 @@ class Unit:
         # after the rewrites): invariants then survive a renaming of the function's temporaries
         ct_ = [t for t in toks[parts["body_open"]:] if not L.is_trivia(t)]
         mut_locals = [ct_[q + 2].text for q in range(len(ct_) - 2) if ct_[q].text == "let" and ct_[q + 1].text == "mut" and ct_[q + 2].kind == L.IDENT]
+        # `$mut{INIT}`: the `let mut` local whose initialiser is INIT (e.g. `$mut{data_a.into_iter()}`, `$mut{0}`): a local is named
+        # by the role its initialiser gives it, whatever it is called and whatever other locals the function has
+        mut_inits = []
+        for q in range(len(ct_) - 2):
+            if ct_[q].text == "let" and ct_[q + 1].text == "mut" and ct_[q + 2].kind == L.IDENT:
+                e_ = q + 3
+                while e_ < len(ct_) and ct_[e_].text != "=" and ct_[e_].text != ";":
+                    e_ += 1
+                if e_ < len(ct_) and ct_[e_].text == "=":
+                    f_ = e_ + 1
+                    depth_ = 0
+                    while f_ < len(ct_) and not (ct_[f_].text == ";" and depth_ == 0):
+                        if ct_[f_].text in ("(", "[", "{"):
+                            depth_ += 1
+                        elif ct_[f_].text in (")", "]", "}"):
+                            depth_ -= 1
+                        f_ += 1
+                    mut_inits.append((ct_[q + 2].text, L.norm(ct_[e_ + 1:f_])))
         def subst_mut(line):
             def rep(m):
                 k = int(m.group(1))
                 if k >= len(mut_locals):
                     raise Unsupported("lost anchor: fn %s has %d `let mut` locals, spec names $mut%d" % (spec["name"], len(mut_locals), k))
                 return mut_locals[k]
-            return re.sub(r"\$mut(\d+)", rep, line)
+            line = re.sub(r"\$mut(\d+)", rep, line)
+            def rep2(m):
+                want = L.norm(L.lex(m.group(1)))
+                hits = [nm for nm, init in mut_inits if init == want]
+                if len(hits) != 1:
+                    raise Unsupported("lost anchor: fn %s has %d `let mut` locals initialised with `%s`" % (spec["name"], len(hits), m.group(1)))
+                return hits[0]
+            return re.sub(r"\$mut\{([^}]*)\}", rep2, line)
         spec = dict(spec, loops={k: [subst_mut(l) for l in v] for k, v in spec["loops"].items()},
                     at=[(a_, subst_mut(t_)) for a_, t_ in spec.get("at", [])])
         # assemble
